@@ -36,6 +36,7 @@ const (
 	opSleep
 	opOnce
 	opYield
+	opCond
 )
 
 type selCase struct {
@@ -54,6 +55,7 @@ type pendingOp struct {
 	rw     *RWMutex
 	wg     *WaitGroup
 	once   *Once
+	cw     *condWaiter
 	wake   time.Duration
 	// completion by a partner (rendezvous) or by the thread itself
 	done   bool
@@ -267,6 +269,8 @@ func (s *Sched) enabled(t *thread) bool {
 		return s.now >= op.wake
 	case opOnce:
 		return !op.once.running
+	case opCond:
+		return op.cw.signaled
 	}
 	return false
 }
